@@ -91,8 +91,12 @@ extern "C" {
     fn setrlimit(resource: i32, rlim: *const [u64; 2]) -> i32;
     fn dup(fd: i32) -> i32;
     fn close(fd: i32) -> i32;
+    fn socket(domain: i32, ty: i32, protocol: i32) -> i32;
+    fn connect(fd: i32, addr: *const [u8; 16], len: u32) -> i32;
 }
 const RLIMIT_NOFILE: i32 = 7;
+const AF_INET: i32 = 2;
+const SOCK_STREAM_CLOEXEC: i32 = 1 | 0o2000000;
 fn open_fds() -> u64 {
     std::fs::read_dir("/proc/self/fd").map(|d| d.count() as u64).unwrap_or(64)
 }
@@ -118,27 +122,90 @@ fn fill_fd_gaps(fallback: u64) -> (Vec<i32>, u64) {
 /// While the descriptor limit is lowered, a descriptor freed by anything else in the process (a late close by an
 /// earlier scenario's threads) would let accept() succeed.  This thread takes every descriptor that becomes free
 /// (dup(0) fails with EMFILE as long as none is) within about a millisecond; accept() is retried only every 500 ms.
-fn start_plugger() -> (Arc<std::sync::atomic::AtomicBool>, std::thread::JoinHandle<Vec<i32>>) {
+/// `start_plugger` returns once the thread has seen dup(0) fail, i.e. once no descriptor is to be had.
+struct Plugger {
+    stop: Arc<std::sync::atomic::AtomicBool>,
+    handle: std::thread::JoinHandle<Vec<i32>>,
+}
+fn start_plugger() -> Plugger {
     let stop = Arc::new(std::sync::atomic::AtomicBool::new(false));
-    let stop2 = stop.clone();
-    let h = std::thread::spawn(move || {
+    let armed = Arc::new(std::sync::atomic::AtomicBool::new(false));
+    let (stop2, armed2) = (stop.clone(), armed.clone());
+    let handle = std::thread::spawn(move || {
         let mut got = Vec::new();
         while !stop2.load(SeqCst) {
             let f = unsafe { dup(0) };
             if f >= 0 {
                 got.push(f);
             } else {
+                armed2.store(true, SeqCst);
                 std::thread::sleep(Duration::from_micros(500));
             }
         }
         got
     });
-    (stop, h)
+    let t0 = std::time::Instant::now();
+    while !armed.load(SeqCst) && t0.elapsed() < Duration::from_secs(2) {
+        std::thread::sleep(Duration::from_micros(100));
+    }
+    Plugger { stop, handle }
 }
-fn stop_plugger(p: (Arc<std::sync::atomic::AtomicBool>, std::thread::JoinHandle<Vec<i32>>)) {
-    p.0.store(true, SeqCst);
-    if let Ok(fds) = p.1.join() {
+fn stop_plugger(p: Plugger) {
+    p.stop.store(true, SeqCst);
+    if let Ok(fds) = p.handle.join() {
         close_all(fds);
+    }
+}
+
+/// The EMFILE injection.  The ORDER matters: the client's socket is created first (it needs a descriptor itself),
+/// then the descriptor table is made dense, the limit is lowered to the highest descriptor + 1 and the plugger is
+/// running -- and only THEN does the client knock (`knock`), so that the accept() the knock wakes up cannot get a
+/// descriptor.  (Knocking before the limit was lowered left accept() a window of some hundred microseconds, which it
+/// won or lost depending on the machine: the false alarm `acc 2 c F7` of C13.)
+struct Emfile {
+    lim: [u64; 2],
+    fillers: Vec<i32>,
+    plug: Plugger,
+    client_fd: i32,
+}
+impl Emfile {
+    fn begin() -> Emfile {
+        let mut lim = [0u64; 2];
+        unsafe { getrlimit(RLIMIT_NOFILE, &mut lim) };
+        let client_fd = unsafe { socket(AF_INET, SOCK_STREAM_CLOEXEC, 0) };
+        let cur = open_fds();
+        let (fillers, top_fd) = fill_fd_gaps(cur);
+        let low = [top_fd.min(lim[0]), lim[1]];
+        unsafe { setrlimit(RLIMIT_NOFILE, &low) };
+        let plug = start_plugger();
+        Emfile { lim, fillers, plug, client_fd }
+    }
+    /// The client connects (blocking; on loopback this returns as soon as the connection sits in the listener's queue).
+    fn knock(&mut self, addr: SocketAddr) -> Option<TcpStream> {
+        use std::os::unix::io::FromRawFd;
+        let fd = std::mem::replace(&mut self.client_fd, -1);
+        let SocketAddr::V4(a) = addr else { panic!("harness listens on 127.0.0.1") };
+        if fd < 0 {
+            return None;
+        }
+        let mut sa = [0u8; 16];
+        sa[0..2].copy_from_slice(&(AF_INET as u16).to_ne_bytes());
+        sa[2..4].copy_from_slice(&a.port().to_be_bytes());
+        sa[4..8].copy_from_slice(&a.ip().octets());
+        if unsafe { connect(fd, &sa, 16) } == 0 {
+            Some(unsafe { TcpStream::from_raw_fd(fd) })
+        } else {
+            unsafe { close(fd) };
+            None
+        }
+    }
+    fn end(self) {
+        unsafe { setrlimit(RLIMIT_NOFILE, &self.lim) };
+        stop_plugger(self.plug);
+        close_all(self.fillers);
+        if self.client_fd >= 0 {
+            unsafe { close(self.client_fd) };
+        }
     }
 }
 fn close_all(fds: Vec<i32>) {
@@ -252,18 +319,10 @@ fn acc_case(toks: &[String]) -> (String, bool) {
             let (tx, rx) = std::sync::mpsc::sync_channel(1);
             let _ = tx.send(servlin::log::internal::LogEvent::new(servlin::log::Level::Info, ()));
             let guard = servlin::log::set_global_logger(tx).ok();
-            let mut lim = [0u64; 2];
-            unsafe { getrlimit(RLIMIT_NOFILE, &mut lim) };
-            let cur = open_fds();
-            let client = TcpStream::connect_timeout(&addr, Duration::from_millis(1000)).ok();
-            let (fillers, top_fd) = fill_fd_gaps(cur);
-            let low = [top_fd.min(lim[0]), lim[1]];
-            unsafe { setrlimit(RLIMIT_NOFILE, &low) };
-            let plug = start_plugger();
+            let mut inj = Emfile::begin();
+            let client = inj.knock(addr);
             std::thread::sleep(Duration::from_millis(200 + 500 * e));
-            unsafe { setrlimit(RLIMIT_NOFILE, &lim) };
-            stop_plugger(plug);
-            close_all(fillers);
+            inj.end();
             // the logger works again: everything queued and everything sent from now on is taken
             let drainer = std::thread::spawn(move || for _ev in rx {});
             clients.push(client);
@@ -273,19 +332,13 @@ fn acc_case(toks: &[String]) -> (String, bool) {
             let _ = drainer.join();
             continue;
         } else if let Some(e) = c.strip_prefix('f').or_else(|| c.strip_prefix('F')) {
-            // accept failures: lower the descriptor limit below what accept() needs, let a client
+            // accept failures: lower the descriptor limit below what accept() needs, THEN let a client
             // knock, keep it so for 200 + 500*e ms (e retry rounds of the loop's 500 ms pause), then
             // restore the limit.  F<e>: the permit is revoked while accept() is still failing.
             let e: u64 = e.parse().unwrap_or(1).max(1);
-            let mut lim = [0u64; 2];
-            unsafe { getrlimit(RLIMIT_NOFILE, &mut lim) };
-            let cur = open_fds();
-            let client = TcpStream::connect_timeout(&addr, Duration::from_millis(1000)).ok();
-            let (fillers, top_fd) = fill_fd_gaps(cur);
-            let low = [top_fd.min(lim[0]), lim[1]];
             let admitted_before = sh.admitted.load(SeqCst);
-            unsafe { setrlimit(RLIMIT_NOFILE, &low) };
-            let plug = start_plugger();
+            let mut inj = Emfile::begin();
+            let client = inj.knock(addr);
             std::thread::sleep(Duration::from_millis(200 + 500 * e));
             if sh.admitted.load(SeqCst) != admitted_before {
                 // accept() succeeded under the lowered limit: a descriptor was freed meanwhile (a late close by an earlier
@@ -296,15 +349,11 @@ fn acc_case(toks: &[String]) -> (String, bool) {
                 top.revoke();
                 pred.revoke();
                 step(&pred, &mut stopped, &mut out, &mut matched);
-                unsafe { setrlimit(RLIMIT_NOFILE, &lim) };
-                stop_plugger(plug);
-                close_all(fillers);
+                inj.end();
                 scratch_clients.push(client);
                 continue;
             }
-            unsafe { setrlimit(RLIMIT_NOFILE, &lim) };
-            stop_plugger(plug);
-            close_all(fillers);
+            inj.end();
             clients.push(client);
             pred.connect();
         } else {
